@@ -1,1 +1,2 @@
 import MimicProps.C18
+import MimicProps.C04
